@@ -25,6 +25,11 @@ fn safe_join(root: &Path, rel: &str) -> Option<PathBuf> {
             return None;
         }
     }
+    // "", "." and "./" name the served directory itself: a write to it would stage
+    // (and create parents) NEXT TO the root, i.e. outside the tree being served.
+    if !p.components().any(|c| matches!(c, Component::Normal(_))) {
+        return None;
+    }
     Some(root.join(p))
 }
 
